@@ -6,6 +6,7 @@ import VlsModel.Gen.FnChannelClose
 import VlsModel.Gen.FnCloseDecode
 import VlsModel.Gen.FnB3TxUtilClose
 import VlsModel.Gen.FnB3ChannelShutdown
+import VlsModel.Gen.FnB3NodeShutdown
 import VlsModel.Lemmas.FnGen
 /-
 C07 — the epsilon comparisons of the mutual-close model (`MutualClose.outsideEps`, `minToHolder`,
@@ -703,5 +704,20 @@ theorem C07_fn_get_ldk_shutdown_script_upfront {N S : Type} (nodeScript : N → 
     (c : Gen.FnB3ChannelShutdown.Channel N S) (s : S) (h : c.setup.holder_shutdown_script = some s) :
     c.get_ldk_shutdown_script nodeScript = .ok s := by
   rw [C07_fn_get_ldk_shutdown_script, h]
+
+/-- `Node::get_ldk_shutdown_scriptpubkey` (`Gen.FnB3NodeShutdown`): the script of the node's **own** keys manager, a panic iff
+    it has none; with it as the external, a channel without an upfront script closes to its own node's script -/
+theorem C07_fn_node_get_ldk_shutdown_scriptpubkey {K S : Type} (km : K → Option S) (n : Gen.FnB3NodeShutdown.Node K) :
+    n.get_ldk_shutdown_scriptpubkey km = (match km n.keys_manager with | some s => .ok s | none => .error .panic) := by
+  unfold Gen.FnB3NodeShutdown.Node.get_ldk_shutdown_scriptpubkey
+  cases km n.keys_manager <;> rfl
+
+theorem C07_fn_shutdown_script_of_own_node {K S : Type} (km : K → Option S)
+    (c : Gen.FnB3ChannelShutdown.Channel (Gen.FnB3NodeShutdown.Node K) S) (n : Gen.FnB3NodeShutdown.Node K) (s : S)
+    (hup : c.setup.holder_shutdown_script = none) (hn : c.node = some n) (hs : km n.keys_manager = some s) :
+    c.get_ldk_shutdown_script (fun nd => km nd.keys_manager) = .ok s
+      ∧ n.get_ldk_shutdown_scriptpubkey km = .ok s := by
+  rw [C07_fn_get_ldk_shutdown_script, C07_fn_node_get_ldk_shutdown_scriptpubkey, hup, hn]
+  simp [hs]
 
 end VlsModel.Props.C07Fn
